@@ -75,7 +75,7 @@ def run(ctx):
         only_false = True
         for n in fail_edges:
             # the failing edge must not reach Ok(true)
-            reach = an.cfg.reach_from([n])
+            reach = s.reach(fn, [n])
             if any(t in reach for t in true_rets):
                 only_false = False
         # the clause is skipped only when the count is zero
@@ -121,11 +121,11 @@ def run(ctx):
                         wrong.append(n)
         okr = False
         for n in rej:
-            reach = an.cfg.reach_from([n])
+            reach = s.reach(fn, [n])
             if any(x in reach for x in false_rets) and not any(t in reach for t in true_rets):
                 okr = True
         for n in wrong:
-            reach = an.cfg.reach_from([n])
+            reach = s.reach(fn, [n])
             if not any(t in reach for t in true_rets):
                 okr = False     # an inclusive bound is rejected
                 rej = []
@@ -221,7 +221,7 @@ def tag_clause(ctx, s, fn, an, me, ev, false_rets, true_rets, facc, eacc):
                     walk_end.append(n)
             if f[0] == "true" and f[1][0] == "call" and f[1][1].endswith("::is_empty") and contains_value(f[1], facc("tags")):
                 walk_end.append(n)
-    reach = an.cfg.reach_from([an.cfg.entry], avoid=walk_end)
+    reach = s.reach(fn, [an.cfg.entry], avoid=walk_end)
     okt = bool(walk_end) and not any(t in reach for t in true_rets)
     s.add("S-MUSTPASS", fn, "true-only-after-all-constraints", "Ok(true)", fn.sp, PROVED if okt else VIOLATION,
           "Ok(true) is reached only when the filter has no tag constraints or the walk over them ended" if okt else
